@@ -83,7 +83,7 @@ REGISTRY["C20"] = dict(
     level="other",
     technique="static analysis of main's MIR: flag->builder table extraction with polarity, value-flow from the library result to the single output write, error-handler shape (eprintln + non-zero exit), `?` propagation of I/O results",
     claim=(
-        "Structural clauses over `main`: flag/builder pairs with polarity equal the documented map and the fully built Options reaches from_path/from_string; the only output write is write_all of exactly the Ok payload, "
+        "Structural clauses over `main`: flag/builder pairs with polarity equal the documented map and the fully built Options reaches from_path/from_string, the load-path list being passed as collected from clap (never sorted, de-duplicated or filtered); the only output write is write_all of exactly the Ok payload, "
         "to stdout or the OUTPUT file; the Err path prints the error with eprintln! and exits with a non-zero constant before any write; I/O results propagate with `?`, and the sink is written directly (a BufWriter/LineWriter would need a propagated flush on every path after the write). "
         "NOT decided: process-level behaviour as such (clap parsing, OS errors, what the library returns)."
     ),
@@ -157,7 +157,7 @@ REGISTRY["C15"] = dict(
     claim=(
         "Table and constructor clauses: (a) all 148 CSS named colours (independent table in spec/) are in name_to_rgba with alpha 0xFF, `transparent` is rgba(0,0,0,0), rgba_to_name is a right inverse; "
         "(b) Color's fields are private, struct literals occur only in new_rgba/new_hsla/new, the raw constructors are called only from the reviewed set, and from_rgba/from_rgba_fn/from_hwb/from_hsla clamp every parameter "
-        "(from_hsla's alpha obligation is checked at its callers); (c) compressed output writes a name only if it fits and 3-digit hex only under can_use_short_hex, which requires is_symmetrical_hex of red, green and blue together; (d) interval analysis: every hue handed to hue_to_rgb lies in [-1, 2] turns (it corrects by one turn at most), with `Number % 360` shown to be the non-negative modulo. "
+        "(from_hsla's alpha obligation is checked at its callers, and update_value — the root those callers rely on — clamps in its Adjust arm and returns the range-checked parameter in its Change arm); (c) compressed output writes a name only if it fits and 3-digit hex only under can_use_short_hex, which requires is_symmetrical_hex of red, green and blue together; (d) interval analysis: every hue handed to hue_to_rgb lies in [-1, 2] turns (it corrects by one turn at most), with `Number % 360` shown to be the non-negative modulo. "
         "NOT decided: HSL/HWB round trips and the colour-function laws (numeric)."
     ),
     explanation="Clauses C15-a..c of DESIGN.md §3 on MIR/HIR facts of the current tree and spec/css_named_colors.json. NOT decided: numeric conversions, rounding at .5 boundaries, colour-function identities.",
@@ -170,7 +170,7 @@ REGISTRY["C14"] = dict(
     claim=(
         "Registry and signature clauses: (a) every sass:list/map/string member with a documented global alias is bound to the same fn item as that alias, no duplicate or underscore registrations; "
         "(b) every constant (position, name) read by the list/map/string built-ins and every max_args equals the documented signature; "
-        "(c) str-length/slice/index/insert count positions with chars(), never with byte lengths or byte indices. NOT decided: index arithmetic, separator/bracket inference, error cases (value semantics)."
+        "(c) str-length/slice/index/insert count positions with chars(), never with byte lengths or byte indices; (d) nested-key map walks reassign their cursor map on every path through an iteration. NOT decided: index arithmetic, separator/bracket inference, error cases (value semantics)."
     ),
     explanation="Clauses C14-a..c of DESIGN.md §3 on MIR facts of the current tree and spec/builtin_{aliases,signatures}.json. NOT decided: the values the functions return.",
     assumptions=TRUSTED + ["spec tables transcribed from the Sass documentation"],
@@ -182,7 +182,7 @@ REGISTRY["C12"] = dict(
     claim=(
         "Structural clauses: (a) Public/Limited/Prefixed member views forward get/remove/insert only under their predicate and list keys consistently; (b) @forward show/hide lists reach LimitedMapView on top of the prefixed view; "
         "(c) sass:math/meta/selector/color members equal their global aliases; (d) execute() evaluates only on a cache miss and registers the module, load_module brackets execute with the active-module set and errors on a loop; "
-        "(e) every namespaced member reference built by the parser passed assert_public; (f) load_module receives a configuration built from the rule's own `with` clause or an empty one at every call outside @forward (a plain `@use` never inherits the enclosing module's configuration). NOT decided: the rest of `with` configuration semantics, diamond/emission order, namespace shadowing."
+        "(e) every namespaced member reference built by the parser passed assert_public; (f) load_module receives a configuration built from the rule's own `with` clause or an empty one at every call outside @forward (a plain `@use` never inherits the enclosing module's configuration); (g) the module cache / active-module set are keyed by Fs::canonicalize and StdFs::canonicalize is exactly std::fs::canonicalize (no shortcut that keeps symlinked spellings apart). NOT decided: the rest of `with` configuration semantics, diamond/emission order, namespace shadowing."
     ),
     explanation="Clauses C12-a..e of DESIGN.md §3 on MIR facts of the current tree. NOT decided: configuration semantics, CSS emission order across modules.",
     assumptions=TRUSTED + ["spec/builtin_aliases.json transcribed from the Sass documentation"],
@@ -206,7 +206,7 @@ REGISTRY["C18"] = dict(
     claim=(
         "Shared-table clauses: (a) the StylesheetParser/BaseParser methods each front end overrides are exactly the reviewed hook sets and is_indented/is_plain_css return the fixed constants; "
         "(b) TokenLexer::next maps exactly FF, CR, CRLF to one `\\n`, consumes the LF after CR with one call and advances the byte position by 1 on exactly the paths that consumed it; (c) Identifier is only built by from_str, every Identifier built there wraps a normalised get_or_intern, scope maps are keyed by it, and the @forward prefix (a plain String matched against normalised names) is read with normalisation at every AstForwardRule construction; "
-        "(d) CssParser::parse_at_rule rejects exactly dart-sass's set of Sass-only at-rules and every listed Sass-only construct has an is_plain_css() guard leading to Err. "
+        "(d) CssParser::parse_at_rule rejects exactly dart-sass's set of Sass-only at-rules and every listed Sass-only construct has an is_plain_css() guard leading to Err; (e) the tab/space flags of the indented syntax are re-initialised for every line peek_indentation scans. "
         "NOT decided: that SCSS and indented inputs produce identical CSS."
     ),
     explanation="Clauses C18-a..d of DESIGN.md §3 on HIR/MIR facts of the current tree. NOT decided: behavioural equality of the front ends on concrete programs.",
